@@ -5,6 +5,7 @@ CONSTANT MaxT = 3
 INVARIANT ThmPathsUnique
 INVARIANT ThmWholeImpliesWord
 INVARIANT ThmStrictLiberal
+INVARIANT ThmNameIsLiteralPattern
 INVARIANT ThmPrio
 INVARIANT Emit
 CHECK_DEADLOCK FALSE
